@@ -453,6 +453,13 @@ func (r *tunnelRun) plans(cfgNo int, cfg tnCfg, conns int) []*userPlan {
 		default:
 			p.mode, p.closeAfter, p.back.closeAfter = "D", "received", "never"
 		}
+		if cfg.Transport == "kcp" && !cfg.Mux && cfg.Pool == 0 && k >= conns-3 {
+			// (the last connections of proxy 1) work connections that are kcp sessions of their own, closed from the user's side right before the simultaneous
+			// connections of proxy 1: their remains must not hold up the acceptance of new work connections
+			p.proxy = 1
+			p.mode, p.closeAfter, p.back.downBytes, p.back.closeAfter = "A", "written", 0, "never"
+			p.upBytes, p.chunk = 1<<20, 16*1024 // data still in flight when the user closes
+		}
 		if p.upBytes > 0 && p.upBytes < hdrLen {
 			p.upBytes = hdrLen
 		}
@@ -974,6 +981,9 @@ func tnLattice(rnd *rand.Rand, n int) []tnCfg {
 		}
 		if len(out) == 6 { // xtcp falling back to stcp shows up in every run
 			c.Kind, c.Transport = "xtcp", "tcp"
+		}
+		if len(out) == 7 { // kcp without mux, work connections made on demand: every work connection is a kcp session of its own
+			c = tnCfg{Kind: "https", Enc: true, Limit: "none", Mux: false, Transport: "kcp", Pool: 0, Shared: true}
 		}
 		if c.Kind != "stcp" && c.Kind != "xtcp" {
 			c.VEnc, c.VComp = false, false
